@@ -1404,15 +1404,11 @@ def _translate_nonmem_time_and_date_value(ser, timecol, datecol):
             year = int(year)
         month = int(month)
         day = int(day)
-        hour = int(timeval)
-        timeval = (timeval - hour) * 60
-        minute = int(timeval)
-        timeval = (timeval - minute) * 60
-        second = int(timeval)
-        timeval = (timeval - second) * 1000000
-        microsecond = int(timeval)
-        timeval = (timeval - microsecond) * 1000
-        nanosecond = int(timeval)
+        # Round once to whole nanoseconds, then split exactly with integer arithmetic
+        second, nanosecond = divmod(round(timeval * 3600e9), 10**9)
+        minute, second = divmod(second, 60)
+        hour, minute = divmod(minute, 60)
+        microsecond, nanosecond = divmod(nanosecond, 1000)
         ts = pd.Timestamp(
             year=year,
             month=month,
